@@ -39,6 +39,7 @@ func (h *hist) doWipe() {
 		h.note("wipe_kinds", ">=1000-keys")
 	}
 	h.mreplace(map[string]string{})
+	h.plainSets = 0
 	h.audit("wipe")
 }
 
